@@ -92,6 +92,11 @@ func (g *genCtx) genNumber(t *rapid.T, integer bool) *Schema {
 	}
 	drawBound := func(label string) string {
 		if integer {
+			if rapid.IntRange(0, 7).Draw(t, label+"-huge") == 0 {
+				// integers beyond 2^53: exact as int64, not as float64
+				return rapid.SampledFrom([]string{"9007199254740993", "-9007199254740993", "9223372036854775806", "-9223372036854775807",
+					"4611686018427387905", "9007199254740992", "36028797018963969"}).Draw(t, label+"-hugev")
+			}
 			return strconv.Itoa(rapid.IntRange(-20, 20).Draw(t, label))
 		}
 		return rapid.SampledFrom(decimals).Draw(t, label)
